@@ -66,6 +66,8 @@ class Interp:
         self.cur_fn = []
         self.class_models = {}
         self.stop_before = None
+        self.ghost_before = []      # [(statement text prefix, fn(ip, env))]: lemma invocations at program points
+        self.last_locals = {}
         self.stop_after = None      # contract hook: verify a PREFIX of the function (returns the locals at that point)
         ctx.locator = self.locate
 
@@ -156,8 +158,12 @@ class Interp:
             raise Unsupported("inlining depth exceeded at %s" % qualname)
         try:
             self.exec_block(node.body, env)
+            if self.depth == 1:
+                self.last_locals = dict(env.vars)
             return None
         except PathEnd as e:
+            if self.depth == 1:
+                self.last_locals = dict(env.vars)
             if e.kind == "return":
                 return e.value
             raise
@@ -171,6 +177,11 @@ class Interp:
         for s in stmts:
             if self.stop_before is not None and self.depth == 1 and self.stop_before(s):
                 raise PathEnd("return", dict(env.vars), s)
+            if self.ghost_before and self.depth == 1:
+                txt = ast.unparse(s).replace(" ", "").replace('"', "'")
+                for pat, fn in self.ghost_before:
+                    if txt.startswith(pat.replace(" ", "").replace('"', "'")):
+                        fn(self, env)          # contract-supplied proof step (lemma invocation) at this program point
             self.exec_stmt(s, env)
             if self.stop_after is not None and self.depth == 1 and self.stop_after(s):
                 raise PathEnd("return", dict(env.vars), s)
